@@ -91,6 +91,16 @@ func (f *Defmacro) Call(s *slip.Scope, args slip.List, depth int) (result slip.O
 		}
 	}
 	slip.CurrentPackage.DefLambda(low, lc, fc, slip.MacroSymbol)
+	// Calls compiled from now on must refer to the same Lambda as the calls
+	// compiled earlier so that the next redefinition reaches all of them, as
+	// defun does.
+	owner := slip.CurrentPackage
+	if fi := owner.GetFunc(low); fi != nil && fi.Pkg != nil {
+		owner = fi.Pkg
+	}
+	if shared := owner.FindLambda(low); shared != nil {
+		lc = shared
+	}
 	if 0 < len(s.Parents()) {
 		lc.Closure = s
 	}
